@@ -47,7 +47,7 @@ def plan_C01(res, binary, hooked, tier, seed):
     res.add_tlc(mc, "symbol coding: IndexBounds, StateRange, AutomatonOK over all programs; export of (program, decisions, output)")
     rep = run_harness(binary, ["lzma", "--property", "C01", "--seed", seed, "--coding-export", mc["out"],
                                "--limit", tq(tier, 9000, 1000000),
-                               "--walks", tq(tier, 60, 1500), "--walk-syms", tq(tier, 400, 1500)], "C01_cod")
+                               "--walks", tq(tier, 60, 5000), "--walk-syms", tq(tier, 400, 1500)], "C01_cod")
     res.add_harness(rep, "TLC-exported programs range-coded from TLC's own decision lists -> one-shot / raw / Stream; long walks of the transcribed spec")
     lzma_layer(res, binary, hooked, tier, seed, "C01", [])
     symbol_traces(res, binary, hooked, tier, seed, "C01")
@@ -55,19 +55,19 @@ def plan_C01(res, binary, hooked, tier, seed):
             "distinct = distinct (input bytes, api, options); non-trivial = at least one symbol decoded or an error expected"), TRUSTED_LZMA
 
 def plan_C08(res, binary, hooked, tier, seed):
-    lzma_layer(res, binary, hooked, tier, seed, "C08", ["--options-matrix", tq(tier, 24, 400)])
+    lzma_layer(res, binary, hooked, tier, seed, "C08", ["--options-matrix", tq(tier, 24, 2000)])
     return ("behaviours of MC_LzmaDecoder ending by size / marker / overshoot / truncation, replayed on the raw decoder; plus, on the one-shot and streaming APIs, "
             "programs x {ReadFromHeader, ReadHeaderButUseProvided(None|n), UseProvided(None|n)} x header size field {all-ones, true, true+1, true-1, 0, 2^40} x marker present/absent x n in {true, +1, -1, 0} "
             "with the bytes consumed (13/13/5 header bytes + payload) compared on success; distinct = distinct (bytes, options)"), TRUSTED_LZMA
 
 def plan_C09(res, binary, hooked, tier, seed):
-    lzma_layer(res, binary, hooked, tier, seed, "C09", ["--fab-probes", tq(tier, 90, 3000)])
+    lzma_layer(res, binary, hooked, tier, seed, "C09", ["--fab-probes", tq(tier, 90, 12000)])
     lzma2_layer(res, binary, hooked, tier, seed, "C09", 0)
     return ("behaviours of MC_LzmaDecoder whose last symbol is an out-of-window copy (distance > produced, > dictionary, huge; also via matched literal), at every position relative to the wrap; "
             "distinct = distinct (bytes, dict)"), TRUSTED_LZMA
 
 def plan_C10(res, binary, hooked, tier, seed):
-    lzma_layer(res, binary, hooked, tier, seed, "C10", ["--memlimit-matrix", tq(tier, 20, 300)])
+    lzma_layer(res, binary, hooked, tier, seed, "C10", ["--memlimit-matrix", tq(tier, 20, 1200)])
     return ("behaviours of MC_LzmaDecoder under every memory limit of the model (0..D and none) on the raw decoder; plus real-size streams (output below and above the dictionary) under limits "
             "{0, need-1, need, need+1, dict-1, dict, 2^32-1, none} on the one-shot, streaming and raw APIs with the peak heap observed by the counting allocator; distinct = distinct (bytes, dict, limit, api)"), TRUSTED_LZMA
 
@@ -190,11 +190,12 @@ def lzma2_layer(res, binary, hooked, tier, seed, prop, walks):
     if vac:
         raise ToolError("vacuous model: actions never taken: %s" % vac)
     res.add_tlc(mc, "chunk layer vs declarative chunk semantics: Refines, Verdict, SinkPrefix, FramingRejected over all chunk sequences of the bounded model (every reset class after every chunk kind, matches into earlier chunks, one framing fault)")
-    rep = run_harness(binary, ["lzma2", "--property", prop, "--seed", seed, "--export", mc["out"], "--limit", tq(tier, 60000, 3000000), "--walks", walks], "%s_l2" % prop)
+    extra = ["--framing-extremes"] if prop == "C17" else []
+    rep = run_harness(binary, ["lzma2", "--property", prop, "--seed", seed, "--export", mc["out"], "--limit", tq(tier, 60000, 3000000), "--walks", walks] + extra, "%s_l2" % prop)
     res.add_harness(rep, "every exported chunk sequence selected for %s serialised by the spec-driven LZMA2 encoder -> lzma2_decompress / raw Lzma2Decoder / one-block .xz" % prop)
 
 def plan_C02(res, binary, hooked, tier, seed):
-    lzma2_layer(res, binary, hooked, tier, seed, "C02", tq(tier, 60, 2500))
+    lzma2_layer(res, binary, hooked, tier, seed, "C02", tq(tier, 60, 8000))
     symbol_traces(res, binary, hooked, tier, seed, "C02")
     return ("all well-formed chunk sequences of the bounded model + seeded long chunk sequences (1..6 chunks, programs up to 6000 symbols, 1-byte and 64 KiB uncompressed chunks, property changes keeping and changing lc+lp, every reset class); distinct = distinct (stream bytes, api)"), TRUSTED_L2
 
@@ -206,7 +207,7 @@ def plan_C12(res, binary, hooked, tier, seed):
     mc = run_tlc("MC_IoFaults", "MC_IoFaults.cfg", "C12_mc", workers=4, timeout=300)
     res.add_tlc(mc, "the I/O contract (ErrIffFault, PrefixAlways, CompleteOnOk, FlushOnOk, NoCallAfterFailure) against a reference write_all/flush pipeline under every fault script (k-th call fails, Ok(0), arbitrary short writes, failing flush)")
     trace = os.path.join(WORK, "trace_C12.ndjson")
-    rep = run_harness(binary, ["io", "--property", "C12", "--seed", seed, "--inputs", tq(tier, 4, 20), "--trace", trace], "C12_io")
+    rep = run_harness(binary, ["io", "--property", "C12", "--seed", seed, "--inputs", tq(tier, 4, 40), "--trace", trace], "C12_io")
     res.add_harness(rep, "for every entry point (3 decoders, raw LZMA2, Stream, 5 encoder variants) and every sample input: fail each sink write (Err and Ok(0)), each flush, each source call; short-write patterns with fragmented sources", counts_as_traces=False)
     ok, info = validate_trace("Trace_Io", "Trace_Io_shape.cfg", trace, "C12_trace", timeout=tq(tier, 900, 7200))
     res.add_tlc(info, "trace validation of the recorded sink/source call logs (Contract as invariant after every call)")
@@ -232,7 +233,7 @@ def reader_models(res, tier, tag):
 def plan_C13(res, binary, hooked, tier, seed):
     reader_models(res, tier, "C13")
     trace = os.path.join(WORK, "trace_C13.ndjson")
-    rep = run_harness(binary, ["reader", "--mode", "c13", "--property", "C13", "--seed", seed, "--inputs", tq(tier, 10, 120), "--trace", trace], "C13_rd")
+    rep = run_harness(binary, ["reader", "--mode", "c13", "--property", "C13", "--seed", seed, "--inputs", tq(tier, 10, 600), "--trace", trace], "C13_rd")
     res.add_harness(rep, "valid, truncated, bit-flipped and zero-padded inputs of all three formats through Cursor, scripted sources (1-byte, 2-byte, mixed, random fragments) and BufReader capacities 1,2,3,7,64,random; verdict / output / consumed compared with the all-at-once run", counts_as_traces=False)
     ok, info = validate_trace("Trace_Reader", "Trace_Reader.cfg", trace, "C13_trace", timeout=tq(tier, 900, 7200))
     res.add_tlc(info, "trace validation of the BufRead protocol log (fill/consume/read) of the scripted source")
@@ -245,7 +246,7 @@ def plan_C13(res, binary, hooked, tier, seed):
 def plan_C11(res, binary, hooked, tier, seed):
     reader_models(res, tier, "C11")
     range_coder_small(res, binary, tier, seed, "C11")
-    rep = run_harness(binary, ["reader", "--mode", "c11", "--property", "C11", "--seed", seed, "--inputs", tq(tier, 24, 300)], "C11_rd")
+    rep = run_harness(binary, ["reader", "--mode", "c11", "--property", "C11", "--seed", seed, "--inputs", tq(tier, 24, 1500)], "C11_rd")
     res.add_harness(rep, "size-bounded LZMA payloads (13- and 5-byte headers) and LZMA2 streams followed by 0/1/5/64 arbitrary bytes, read through slice, Cursor, scripted sources and BufReader(1/5/4096): must succeed with unchanged output and leave the reader exactly at the end of the payload (position predicted by the reference decoder's lock-step count); marker-terminated LZMA and XZ with trailing bytes must fail")
     lzma_layer(res, binary, hooked, tier, seed, "C11", [])
     lzma2_layer(res, binary, hooked, tier, seed, "C11", tq(tier, 20, 400))
@@ -255,7 +256,7 @@ def plan_C14(res, binary, hooked, tier, seed):
     mc = run_tlc("MC_RawReuse", "MC_RawReuse.cfg", "C14_mc", workers=8, timeout=600, coverage=False)
     res.add_tlc(mc, "all histories of decompress (leaving any used state) / reset(keep | size) up to 4 operations on both raw decoders: ResetIsFresh")
     trace = os.path.join(WORK, "trace_C14.ndjson")
-    rep = run_harness(binary, ["reuse", "--property", "C14", "--seed", seed, "--histories", tq(tier, 80, 2000), "--trace", trace], "C14_ru")
+    rep = run_harness(binary, ["reuse", "--property", "C14", "--seed", seed, "--histories", tq(tier, 80, 12000), "--trace", trace], "C14_ru")
     res.add_harness(rep, "seeded histories on real LzmaDecoder / Lzma2Decoder objects (valid, corrupt, truncated, property-changing and state-leaning streams; reset(None), reset(Some(None)), reset(Some(Some(n)))): after every reset the next decompress is also run on a new object and must agree", counts_as_traces=False)
     if hooked and os.path.exists(trace):
         ok, info = validate_trace("Trace_RawReuse", "Trace_RawReuse.cfg", trace, "C14_trace", timeout=tq(tier, 600, 3600))
